@@ -70,13 +70,23 @@ NEveryByte == 2 * 256
 EveryByteAt(j) ==
   LET b == (j - 1) % 256
   IN  CItem("every_byte", HexCmd("decode", ChanNo(j \div 3), IF j <= 256 THEN <<48, 120, b, 97>> ELSE <<b, 97, 48, 49>>))
+\* code points that alias a hexadecimal digit, x or a blank under truncation to 8 / 16 bits, in a digit position, in the
+\* place of the x of the prefix, and between two digits
+NAlias == 3 * (NTryChars - 255)
+AliasAt(j) ==
+  LET cp == TryChar(256 + ((j - 1) % (NTryChars - 255)))
+      u  == StrToUtf8(CpsToStr(<<cp>>))
+      m  == (j - 1) \div (NTryChars - 255)
+  IN  CItem("alias_code_points", HexCmd("decode", ChanNo(j), IF m = 0 THEN <<48, 120>> \o u \o <<97>>
+                                                             ELSE IF m = 1 THEN <<48>> \o u \o <<97, 98>> ELSE <<48, 120, 97>> \o u \o <<98, 99, 100>>))
 O1 == 2 * NEnc
 O2 == O1 + NLayouts
 O3 == O2 + Len(Malformed)
 O4 == O3 + NBigBad
 O5 == O4 + 2 * Len(UniWs)
 O6 == O5 + NMagicItems
-Count == O6 + NEveryByte
+O7 == O6 + NEveryByte
+Count == O7 + NAlias
 ItemAt(g) ==
   IF g <= O1 THEN (IF g % 2 = 1 THEN EncAt((g + 1) \div 2) ELSE DecAt(g \div 2, g))
   ELSE IF g <= O2 THEN LayoutAt(g - O1)
@@ -84,7 +94,9 @@ ItemAt(g) ==
   ELSE IF g <= O4 THEN BigBadAt(g - O3)
   ELSE IF g <= O5 THEN UniAt(g - O4)
   ELSE IF g <= O6 THEN MagicAt(g - O5)
-  ELSE EveryByteAt(g - O6)
+  ELSE IF g <= O7 THEN EveryByteAt(g - O6)
+  ELSE AliasAt(g - O7)
+Histories == 0
 VARIABLE n
 INSTANCE GenBase
 =============================================================================
